@@ -605,6 +605,21 @@ func (x *Exec) run() {
 			st.vars[r] = Val{T: c.zero(r.Type()), Ty: r.Type()}
 		}
 	}
+	// process-wide streams used by the body get writer ghost state at entry
+	for _, nm := range []string{"Stdout"} {
+		uses := false
+		ast.Inspect(fi.Body, func(nd ast.Node) bool {
+			if se, ok := nd.(*ast.SelectorExpr); ok && se.Sel.Name == nm {
+				if id, ok := se.X.(*ast.Ident); ok && id.Name == "os" {
+					uses = true
+				}
+			}
+			return !uses
+		})
+		if uses {
+			x.initHandle(st, x.stdHandle(nm), "os"+nm)
+		}
+	}
 	x.baseNames = map[string]Val{}
 	env := &Env{info: info}
 	x.codeEnv = env
